@@ -649,7 +649,7 @@ def _inline_procedures(tree: ast.Module) -> None:
         helpers = {n.name: n for n in cls.body if isinstance(n, ast.FunctionDef)}
         bases = [dotted(b) or "" for b in cls.bases]
         for fn in [n for n in cls.body if isinstance(n, ast.FunctionDef)]:
-            if fn.name.startswith("__") or not fn.args.args:
+            if (fn.name.startswith("__") and fn.name != "__post_init__") or not fn.args.args:
                 continue
             # only the protocol classes whose paths the rules walk: plan steps and result handlers (all
             # their methods: run, the evaluation signal, nested runners), Plan, and optimizer.start
@@ -659,6 +659,8 @@ def _inline_procedures(tree: ast.Module) -> None:
                 or (fn.name == "start" and any(b.endswith("Optimizer") for b in bases))
                 or cls.name == "Plan"
                 or cls.name.endswith("Manager")
+                # the field canonicalisation of a dataclass: one unit however it is cut into private pieces
+                or fn.name == "__post_init__"
             )
             if not entry:
                 continue
